@@ -324,6 +324,22 @@ static Plan generate(uint64_t seed, uint64_t run, const std::map<std::string, st
     for (int t = 0; t < w; t++) {
       p.set("ut" + std::to_string(t), r.below(2));
       auto h = gen_history(r, r.range(0, 3));
+      if (r.chance(1, 5)) {
+        // a value of several thousand bytes (block-wise or buffered processing inside a setter) with limit values around
+        // its raw and its encoded size: the limit may then change while the value is still being worked on
+        static const char* const unit[] = {"a", "ab c", "\xc3\xa9", "x%20", "'\"<"};
+        std::string v;
+        std::string u = pick(r, unit);
+        static const uint32_t targets[] = {4097, 5000, 8192, 9000, 12288, 20000};
+        static const int setters[] = {S_SEARCH, S_HASH, S_PATHNAME, S_HREF, S_USERNAME};
+        size_t target = pick(r, targets);
+        while (v.size() < target) v += u;
+        int s = pick(r, setters);
+        if (s == S_HREF) v = "https://example.com/" + v;
+        h.push_back(make_set(s, v));
+        for (size_t k : {v.size() / 2, v.size(), v.size() * 3, v.size() * 3 + 40, v.size() + 40})
+          vals.insert(uint32_t(k));
+      }
       if (r.chance(1, 4)) {
         std::string in;
         OptStr base;
